@@ -11,7 +11,7 @@
      cell_good f c : cell c is acceptable for field f (nested: a row of acceptable cells for a non-empty sub-schema)
      arg_good f a  : constructor argument a (python list, or Inner( *columns)) holds acceptable values for field f *)
 From Coq Require Import String ZArith List Bool Permutation.
-From BNP Require Import Base.Prims Model.C19 Proofs.C19 Proofs.C19_rows Gen.C19 Bridge.C19.
+From BNP Require Import Base.Prims Model.C19 Corr.C19 Proofs.C19 Proofs.C19_rows Proofs.C19_prog Proofs.C19_link Gen.C19 Bridge.C19.
 Import ListNotations.
 Open Scope Z_scope.
 
@@ -232,6 +232,117 @@ Proof.
 Qed.
 Print Assumptions C19_model_follows_rules.
 
+(* ====================================================================== phase 3: whole programs
+   Inv sch t      : t is a stored table of schema sch — every column has the representation of its declared kind
+                    (Proofs/C19_prog.v: bcol_typed — ragged lengths consume the data, StringArray rows are NUL-padded
+                    ASCII strings of the dtype width, codes lie in the alphabet, int64/bool values are integers below
+                    2^53) — and all columns have one length.
+   arg_nice f a   : a constructor argument holds acceptable values for field f (mb_ok) with ints below 2^53.
+   names_ok sch   : field names are pairwise different and contain no '.', sub-field names are pairwise different.
+   op_good        : concatenation with the other operand needs equal schemas; replace / add_fields need arg_nice
+                    arguments; the dict and pandas round trips need names_ok.  Nothing is asked of index lists, masks,
+                    slices, sort columns, lengths of replacement columns: those cases are covered, errors included.
+   sres_ok want m : the model's step result m is what the specification's s_step demands: a table with exactly the
+                    demanded rows (for sort_by: exactly the STABLE sort), rows only, or an error exactly where an
+                    error is demanded. *)
+
+(* T2 for every operation at once, one step: for any stored tables and any operation of the property's list the
+   columnar model does what the list-of-rows specification demands, and its result is again a stored table *)
+Theorem C19_step_refines :
+  forall sch sch1 cur t1 o, Inv sch cur -> Inv sch1 t1 -> op_good sch sch1 o ->
+    sres_ok (s_step sch (E cur) (E t1) o) (m_step sch cur t1 o)
+    /\ match m_step sch cur t1 o with MTab sch' t' => Inv sch' t' | _ => True end.
+Proof. exact step_refines. Qed.
+Print Assumptions C19_step_refines.
+
+(* ... and over every finite program (induction over the operation list, the invariant carried along) *)
+Theorem C19_program_refines :
+  forall p sch sch1 cur t1, Inv sch cur -> Inv sch1 t1 -> run_good sch sch1 cur t1 p -> run_refines sch cur t1 p.
+Proof. exact program_refines. Qed.
+Print Assumptions C19_program_refines.
+
+(* construction converts each column to its declared type or raises: acceptable arguments of one length give a
+   stored table whose rows are the argument rows; acceptable arguments of different lengths raise *)
+Theorem C19_construct :
+  forall sch args, sch <> [] -> args_nice sch args ->
+    let same := forallb (fun a => Nat.eqb (length (arg_cells a)) (length (arg_cells (hd (ABase []) args)))) args in
+    match m_construct sch args with
+    | Some t => Inv sch t /\ same = true /\ E t = erase_rows (zip_rows (map arg_cells args))
+    | None => same = false
+    end.
+Proof. exact construct_refines. Qed.
+Print Assumptions C19_construct.
+
+(* T4, all sortable kinds (numbers, bools, strand symbols, strings, identifiers, encoded strings), repaired code:
+   sort_by never raises and its rows are exactly the specification's stable sort *)
+Theorem C19_sort_by_stable :
+  forall sch f t name k, Inv sch t -> nth_error sch f = Some (name, FB k) -> k <> KList ->
+    exists t', m_sort_by_gen true f t = Some t' /\ Inv sch t'
+      /\ erase_rows (m_to_rows t') = s_sort_by f (erase_rows (m_to_rows t)).
+Proof. exact sort_step. Qed.
+Print Assumptions C19_sort_by_stable.
+
+(* concatenation of two stored tables of one schema never raises (and C19_concat_rows_partial gives its rows) *)
+Theorem C19_concat_total :
+  forall sch a b, Inv sch a -> Inv sch b -> exists t, m_cat a b = Some t /\ Inv sch t.
+Proof. exact cat_total. Qed.
+Print Assumptions C19_concat_total.
+
+(* T3 on stored tables: from_entry_tuples(t.tolist()) gives the rows of t again, for every stored table with at
+   least one row (zero rows: C19_step_refines, operation ORows, through cls.empty()) *)
+Theorem C19_rows_roundtrip_stored :
+  forall sch t, Inv sch t -> (0 < m_len t)%nat ->
+    exists t', m_from_rows_nonempty sch (m_to_rows t) = Some t' /\ Inv sch t'
+      /\ erase_rows (m_to_rows t') = erase_rows (m_to_rows t) /\ m_to_rows t <> [].
+Proof. exact rebuild_from_rows. Qed.
+Print Assumptions C19_rows_roundtrip_stored.
+
+(* T5, value level: from_dict(todict t) has the rows of t — every column kind, nested tables through their dotted
+   keys.  The pandas round trip is the same theorem under the modelling assumption that
+   DataFrame(d).to_dict('series') returns d's keys with the same column values (ASSUMPTIONS in the evidence). *)
+Theorem C19_dict_roundtrip :
+  forall sch t, Inv sch t -> names_ok sch ->
+    exists t', m_from_dict sch (m_todict sch t) = Some t' /\ Inv sch t'
+      /\ erase_rows (m_to_rows t') = erase_rows (m_to_rows t).
+Proof. exact dict_roundtrip. Qed.
+Print Assumptions C19_dict_roundtrip.
+
+(* replace and add_fields, exact: with an acceptable argument the result has the demanded rows when the length fits
+   (or the table has that single field), and raises exactly when the length does not fit *)
+Theorem C19_replace_exact :
+  forall sch f a t fd, Inv sch t -> nth_error sch f = Some fd -> arg_nice (snd fd) a ->
+    match m_replace sch f a t with
+    | Some t' => Inv sch t' /\ replace_want sch f a (E t) = STab (E t')
+    | None => replace_want sch f a (E t) = SErr
+    end.
+Proof. exact replace_step. Qed.
+Print Assumptions C19_replace_exact.
+Theorem C19_add_exact :
+  forall sch name k l t, Inv sch t -> Forall (mb_nice k) l ->
+    match m_add_gen true k l t with
+    | Some t' => Inv (sch ++ [(name, FB k)]) t' /\ s_add (map (fun b => CB (erase_b b)) l) (E t) = Some (E t')
+    | None => s_add (map (fun b => CB (erase_b b)) l) (E t) = None
+    end.
+Proof. exact add_step. Qed.
+Print Assumptions C19_add_exact.
+
+(* the link between the two verdicts of the correspondence: on the guarded class of cases (acceptable constructor
+   arguments, op_good operations) an implementation that agrees with the columnar model satisfies the property as
+   judged against the list-of-rows specification *)
+Theorem C19_model_ok_implies_spec_ok :
+  forall c, case_good c -> model_ok c = true -> spec_ok c = true.
+Proof. exact model_ok_spec_ok. Qed.
+Print Assumptions C19_model_ok_implies_spec_ok.
+
+(* "the operands are unchanged": the model is functional — no operation can alter cur or t1, m_step returns new
+   values — so the statement is about the observations: agreement with the model includes that the operands and
+   every intermediate table, re-observed after the whole program, still show the same columns and rows *)
+Theorem C19_operands_unchanged :
+  forall c, model_ok c = true ->
+    same_rows (k_t0 c) (k_t0_after c) = true /\ same_rows (k_t1 c) (k_t1_after c) = true /\ k_unchanged c = true.
+Proof. exact operands_unchanged. Qed.
+Print Assumptions C19_operands_unchanged.
+
 (* non-vacuity: a 3-row table with an identifier (width 4), a ragged int-list, an int and a nested column; reversing
    it, masking it and concatenating it with a table whose identifier column is wider give the expected rows *)
 Definition ex_t : ctable :=
@@ -257,4 +368,52 @@ Proof.
   split; [vm_compute; reflexivity|]. split.
   - eexists. split; [vm_compute; reflexivity|]. split; vm_compute; reflexivity.
   - eexists. split; [vm_compute; reflexivity|]. vm_compute. reflexivity.
+Qed.
+
+(* non-vacuity of the phase-3 hypotheses: a schema with identifier, int, strand and nested-table fields, two operand
+   tables built from acceptable arguments (so Inv holds by C19_construct), and a 16-step program using every kind of
+   operation, erroneous ones included (a replacement column of the wrong length, indices out of range), that meets
+   run_good; the model's run has the row counts / error positions listed *)
+Definition exp_sch : schema :=
+  [(unhex "63"%string, FB KId); (unhex "6e"%string, FB KInt); (unhex "73"%string, FB KStrand);
+   (unhex "69"%string, FN [(unhex "61"%string, KInt); (unhex "71"%string, KStr)])].
+Definition exp_a0 : list colarg :=
+  [ABase [MS (unhex "6368723130"%string); MS (unhex "62"%string)]; ABase [MZ DI 28; MZ DI 8];
+   ABase [MS (unhex "2d"%string); MS (unhex "2b"%string)];
+   ANest [[MZ DI 4; MZ DI 8]; [MS (unhex "7878"%string); MS []]]].
+Definition exp_a1 : list colarg :=
+  [ABase [MS (unhex "61"%string)]; ABase [MZ DI 8]; ABase [MS (unhex "2e"%string)]; ANest [[MZ DI 12]; [MS (unhex "79"%string)]]].
+Definition exp_prog : list op :=
+  [OCatR; OSort 1; OSort 0; ODict; ORows; OSlice None None (-1); OMask [true; false; true];
+   OAdd (unhex "7a"%string) KList [ML DI [4; 8]; ML DF []]; OReplace 1 (ABase [MZ DI 0; MZ DI 4]); OReplace 1 (ABase [MZ DI 0]);
+   OIndex (-1); OIndex 5; OTake [0; -2; 7]; OCatSelf; OPandas; OIter].
+
+Lemma C19_exp_nice0 : args_nice exp_sch exp_a0.
+Proof.
+  unfold args_nice, exp_sch, exp_a0. repeat constructor; try discriminate; try (vm_compute; reflexivity); try (vm_compute; intros; discriminate).
+Qed.
+Lemma C19_exp_nice1 : args_nice exp_sch exp_a1.
+Proof.
+  unfold args_nice, exp_sch, exp_a1. repeat constructor; try discriminate; try (vm_compute; reflexivity); try (vm_compute; intros; discriminate).
+Qed.
+Example C19_program_nonvacuous :
+  exists t0 t1,
+    m_construct exp_sch exp_a0 = Some t0 /\ m_construct exp_sch exp_a1 = Some t1
+    /\ Inv exp_sch t0 /\ Inv exp_sch t1 /\ run_good exp_sch exp_sch t0 t1 exp_prog
+    /\ map (fun r => match r with MTab _ t => Z.of_nat (m_len t) | MRows rs => 100 + len rs | MErr => -1 end)
+           (m_run exp_sch t0 t1 exp_prog) = [3; 3; 3; 3; 3; 3; 2; 2; 2; -1; 101; -1; -1; 4; 4; 104].
+Proof.
+  assert (S : exp_sch <> []) by discriminate.
+  assert (R0 := construct_refines exp_sch exp_a0 S C19_exp_nice0). assert (R1 := construct_refines exp_sch exp_a1 S C19_exp_nice1).
+  cbv zeta in R0, R1.
+  destruct (m_construct exp_sch exp_a0) as [t0|] eqn:E0; [|vm_compute in E0; discriminate].
+  destruct (m_construct exp_sch exp_a1) as [t1|] eqn:E1; [|vm_compute in E1; discriminate].
+  exists t0, t1. split; [reflexivity|]. split; [reflexivity|]. split; [apply R0|]. split; [apply R1|].
+  vm_compute in E0. injection E0 as <-. vm_compute in E1. injection E1 as <-.
+  split; [|vm_compute; reflexivity].
+  assert (NK : names_ok exp_sch).
+  { unfold names_ok, exp_sch. repeat split; repeat constructor; simpl; try (vm_compute; intuition discriminate). }
+  simpl run_good.
+  repeat split; try exact NK; try exact I.
+  all: try (repeat constructor; try (vm_compute; reflexivity); try (vm_compute; intros; discriminate)).
 Qed.
